@@ -482,6 +482,8 @@ def dag_specs(stage):  # noqa: C901, PLR0912
             yield from gen_dag.decorations(s)
     elif stage == "dag-N2":
         yield from gen_dag.base_specs(2)
+    elif stage == "dag-N2-three-output-producer":
+        yield from gen_dag.tri_output_specs()
     elif stage == "dag-N2-decorated":
         for s in gen_dag.base_specs(2):
             for d in gen_dag.decorations(s):
@@ -555,11 +557,11 @@ def map_specs(stage):
 
 
 STAGES = {
-    "quick": ["dag-N1", "dag-N2", "map-hand", "dag-N2-decorated", "gmap-1", "dag-N3-le1-tuple", "gmap-2-over-x[i]"],
-    "thorough": ["dag-N1", "dag-N2", "map-hand", "dag-N2-decorated", "gmap-1", "dag-N3-le1-tuple", "gmap-2-over-x[i]", "dag-N2-renamed",
+    "quick": ["dag-N1", "dag-N2", "dag-N2-three-output-producer", "map-hand", "dag-N2-decorated", "gmap-1", "dag-N3-le1-tuple", "gmap-2-over-x[i]"],
+    "thorough": ["dag-N1", "dag-N2", "dag-N2-three-output-producer", "map-hand", "dag-N2-decorated", "gmap-1", "dag-N3-le1-tuple", "gmap-2-over-x[i]", "dag-N2-renamed",
                  "dag-N3-ge2-tuples", "dag-N3-decorated-single-output", "gmap-2-rest", "dag-N3-decorated-one-tuple", "gmap-3-over-x[i]"],
 }
-NCHUNK = {"dag-N1": 2, "dag-N2": 8, "dag-N2-decorated": 24, "dag-N2-renamed": 16, "map-hand": 7, "gmap-1": 8, "dag-N3-le1-tuple": 96,
+NCHUNK = {"dag-N2-three-output-producer": 8, "dag-N1": 2, "dag-N2": 8, "dag-N2-decorated": 24, "dag-N2-renamed": 16, "map-hand": 7, "gmap-1": 8, "dag-N3-le1-tuple": 96,
           "gmap-2-over-x[i]": 32, "dag-N3-ge2-tuples": 400, "dag-N3-decorated-single-output": 64, "gmap-2-rest": 480,
           "dag-N3-decorated-one-tuple": 600, "gmap-3-over-x[i]": 240}
 
